@@ -410,7 +410,8 @@ def gen_pgn(ctx, fens, ntrees, nmut):
     for st, ch, rc, o, err in res:
         if rc != 0 or len(o) != len(ch):
             k = min(len(o), len(ch) - 1)
-            ctx.violation(f"pgn tree generator/round trip crashed on `{ch[k]}`", {"kind": "impl-crash", "input": [ch[k]], "stderr": err[-1500:], "rc": rc})
+            ctx.violation((f"PGN reader did not terminate (watchdog) on the text written for `{ch[k]}`" if rc == -14 else f"pgn tree generator/round trip crashed on `{ch[k]}`"),
+                          {"kind": "impl-hang" if rc == -14 else "impl-crash", "input": [ch[k]], "stderr": err[-1500:], "rc": rc, "variant": "asan"})
             return [], 0
         out += o
     items, bad = [], 0
@@ -469,7 +470,9 @@ def block_malformed(ctx, fens, san_by_fen, quick, nproc):
         cls[key] = cls.get(key, 0) + 1
         ctx.distinct(l)
         bad = None
-        if m[0] == "pgn-decorated" and m[2] is not None:
+        if a.startswith("uncaught-exception"):
+            bad = f"a parser let `{a}` escape (only ChessError is handled by the callers; the engine would terminate)"
+        elif m[0] == "pgn-decorated" and m[2] is not None:
             # property predicate on the implementation: the decorated text of a written tree reads back to a tree that is written identically
             got = re.search(r" w=(\S+)", a)
             if m[2] == "" and a == "nogame":
